@@ -317,6 +317,20 @@ def option_values(modname, func):
     return out
 
 
+def option_combos(modname, func):
+    """Single option settings plus every pair of settings of two different options."""
+    singles = option_values(modname, func)
+    out = list(singles)
+    for i, a in enumerate(singles):
+        for b in singles[i + 1:]:
+            if set(a) != set(b):
+                d = dict(a)
+                d.update(b)
+                if d not in out:
+                    out.append(d)
+    return out
+
+
 def validate_options(mod):
     return option_values(mod.__name__[len('stdnum.'):], mod.validate)
 
@@ -835,7 +849,10 @@ def rich_corpus(name, limit, rng, n_synth=None, n_const=None):
         n_const = max(4, limit)
     if len(cv) > n_const:
         cv = rng.sample(cv, n_const)
-    return nums + extra + cv + synth_label_start(name, rng)
+    alts = alt_spellings(name)
+    if len(alts) > max(6, limit):
+        alts = alts[:3] + rng.sample(alts[3:], max(6, limit) - 3)
+    return nums + extra + cv + synth_label_start(name, rng) + [a for a in alts if a not in nums]
 
 
 def synth_alphabet(name, rng, k=3, pool='+*&/Ñ', extra_random=3):
@@ -1159,7 +1176,7 @@ def alt_spellings(name, limit=40):
     fns = []
     if hasattr(mod, 'format'):
         fns.append((mod.format, {}))
-        for o in option_values(name, mod.format):
+        for o in option_combos(name, mod.format):
             fns.append((mod.format, o))
     for fname in sorted(vars(mod)):
         f = getattr(mod, fname)
